@@ -6,6 +6,7 @@ import (
 	"encoding/json"
 	"fmt"
 	"os"
+	"regexp"
 	"sort"
 	"sync"
 	"testing"
@@ -237,6 +238,18 @@ func runRemoteWatch(t *testing.T, c rwCase) (coq, budgetCoq string, problems []s
 			}
 		case "selector":
 			kopts = append(kopts, state.WatchWithLabelQuery(selector))
+			startBoth = func() {
+				refErr = backing.WatchKind(ctx, kindMD, refCh, kopts...)
+				remErr = remote.WatchKind(ctx, kindMD, remCh, kopts...)
+			}
+		case "idquery", "idlabel":
+			// selection by ID (and by ID and label together): everything in the request that narrows the watch has to
+			// survive a re-dial
+			kopts = append(kopts, state.WatchWithIDQuery(resource.IDRegexpMatch(regexp.MustCompile("^[ap]"))))
+			if c.Kind == "idlabel" {
+				kopts = append(kopts, state.WatchWithLabelQuery(selector))
+			}
+
 			startBoth = func() {
 				refErr = backing.WatchKind(ctx, kindMD, refCh, kopts...)
 				remErr = remote.WatchKind(ctx, kindMD, remCh, kopts...)
@@ -746,7 +759,7 @@ func containsStr(s, sub string) bool {
 
 func genRemoteWatch(r *rng) rwCase {
 	c := rwCase{
-		Kind:     pick(r, []string{"single", "kind", "kindbm", "bootstrap", "aggregated", "selector", "kindfrombm", "singlefrombm", "kindbmtail"}),
+		Kind:     pick(r, []string{"single", "kind", "kindbm", "bootstrap", "aggregated", "selector", "idquery", "idlabel", "kindfrombm", "singlefrombm", "kindbmtail"}),
 		Cap:      pick(r, []int{4, 8, 8, 64}),
 		Gap:      1,
 		NoRetry:  r.chance(1, 10),
@@ -867,7 +880,7 @@ func TestC13(t *testing.T) {
 		r := newRng(seed(), "C13")
 
 		// corpus: every single break position on a short stream, per flavour
-		for _, k := range []string{"single", "kind", "kindbm", "bootstrap", "aggregated", "selector", "kindfrombm", "singlefrombm", "kindbmtail"} {
+		for _, k := range []string{"single", "kind", "kindbm", "bootstrap", "aggregated", "selector", "idquery", "idlabel", "kindfrombm", "singlefrombm", "kindbmtail"} {
 			for b := 1; b <= 5; b++ {
 				cases = append(cases, rwCase{Kind: k, Cap: 8, Gap: 1, Pre: 2, Tail: 2, FinalNap: int64(time.Hour), Plan: []watchFault{{BreakAfter: b}},
 					Steps: []rwStep{
